@@ -124,6 +124,9 @@ impl Failure {
 pub fn design_strings() -> Vec<String> {
     [
         "a", "", "/a", "true", "a b", "\"", "\\", "\n", "\u{0}", "é", "\u{1F600}", "%20", "a%2Fb", "1", "@x", "a,b", "a)",
+        // identifiers that begin with the lexeme of another token kind (the words a number or a
+        // boolean can be spelt with): written unquoted, they must come back whole
+        "info", "nanos", "NaN-c", "inf", "truex", "falsey",
     ]
     .iter()
     .map(|s| s.to_string())
@@ -136,7 +139,7 @@ pub fn extra_strings() -> Vec<String> {
         "false", "\t", "\r", "\u{8}", "\u{c}", "\u{1f}", "\u{7f}", "\u{80}", "a\"b", "a\\nb", "\\u0041", "\\\"", "-a", "a-b", "_",
         "\u{b7}", "a:b", "a/b", "/a/b?c=d#e", "a@b", "{", "}", "(", ")", " ", "  a", "a ", "\u{feff}", "\u{2028}", "\u{d7ff}",
         "\u{e000}", "\u{ffff}", "\u{10000}", "\u{10ffff}", "node", "lane", "node:a", "a,lane:b", "a){", "#", "//", "%", "%zz", "é\"",
-        "\u{1F600}\\", "True", "truex", "a\u{0}b", "\u{d7}", "\u{f7}", "1a", "a1",
+        "\u{1F600}\\", "True", "truex", "a\u{0}b", "\u{d7}", "\u{f7}", "1a", "a1", "nan", "infinity", "Infinity_gauge", "infra", "INFO", "e5", "-inf", "nan1",
     ]
     .iter()
     .map(|s| s.to_string())
